@@ -12,6 +12,8 @@ cp "$S/demo.rs" "crates/$crate/tests/seed_demo.rs"
 # toml_edit has autotests = false: register the target temporarily
 if grep -q "autotests = false" crates/$crate/Cargo.toml; then printf '\n[[test]]\nname = "seed_demo"\n' >> crates/$crate/Cargo.toml; fi
 feat=""; [ "$crate" = toml_edit ] && feat="--features serde"
+# a demonstration may need a non-default feature configuration: taken from its header comment
+hf=$(grep -oE -- "--features[ =][a-z_,]+" "$S/demo.rs" | head -1); [ -n "$hf" ] && feat="$hf"
 cargo test --offline -q -p $pkg $feat --test seed_demo > /tmp/confirm_clean.log 2>&1; clean_rc=$?
 git apply "$S/patch.diff" || { echo "REJECTED: patch does not apply"; exit 1; }
 cargo test --offline -q -p $pkg $feat --test seed_demo > /tmp/confirm_mut.log 2>&1; mut_rc=$?
